@@ -155,6 +155,11 @@ def zone_canonicalize(ctx, rid, core):
     return stats
 
 
+def deep_resolve_args(f, e):
+    from rules import deep_resolve
+    return [deep_resolve(f, deep_resolve(f, a)) for a in e.get('args') or []]
+
+
 def is_param_store(s_, name):
     l = strip(s_['l'])
     return isinstance(l, dict) and l.get('k') == 'var' and l.get('n') == name
@@ -320,6 +325,10 @@ def run(ctx):
                 for e in f.blocks[b]['ev']:
                     if e['k'] == 'decl' and e.get('ref') and e.get('init') is not None and mentions_var(e['init'], v) and alias is None:
                         alias = e
+            if alias is not None and not any(e is not alias and any(isinstance(x, dict) and x.get('k') == 'var' and x.get('n') == alias['n']
+                                                                      for x in walk({k_: v_ for k_, v_ in e.items() if not k_.startswith('_')}))
+                                             for b in body for e in f.blocks[b]['ev']):
+                alias = None            # the reference was folded into its uses: the cursor itself is what the body mentions
             if alias is not None:
                 v = alias['n']
             def derefs(e):
@@ -331,6 +340,9 @@ def run(ctx):
                 for x in walk({k_: v_ for k_, v_ in e.items() if not k_.startswith('_')}):
                     if isinstance(x, dict) and x.get('k') == 'call' and x.get('op') in ('*', '->') and mentions_var(x.get('recv'), v):
                         return True
+                    if isinstance(x, dict) and x.get('k') == 'call' and x.get('op') == '[]' and mentions_field(x.get('recv'), 'DepfileParser::outs_') and \
+                            any(mentions_var(a, v) for a in x.get('args') or []):
+                        return True             # index loop: `outs_[k]`
                     if isinstance(x, dict) and x.get('k') == 'un' and x.get('op') == '*' and mentions_var(x.get('e'), v):
                         return True
                 return False
@@ -369,9 +381,16 @@ def run(ctx):
             done_before = {x['n'] for e in f.events('call') if canon_of(None) is not None and e.get('name') == 'CanonicalizePath' and
                            f.dominates_block(e['_b'], l['header']) for a in e.get('args') or [] for x in walk(a) if isinstance(x, dict) and x.get('k') == 'var'}
 
+            first_done = any(e['k'] == 'call' and e.get('name') == 'CanonicalizePath' and f.dominates_block(e['_b'], l['header']) and
+                             'DepfileParser::outs_' in dstr(deep_resolve_args(f, e)) and any(t in dstr(deep_resolve_args(f, e)) for t in ('front()', 'begin()', '[](0)'))
+                             for e in f.events('call'))
+
             def same_as_done(b, i, s2):
                 for key, pol, atom in f.edge_facts(b, i, all=True):
                     a = strip(atom)
+                    # index loop: element 0 was canonicalised before the loop
+                    if pol and first_done and isinstance(a, dict) and a.get('k') == 'bin' and a.get('op') == '==' and mentions_var(a.get('l'), v) and const_value(a.get('r')) == 0:
+                        return False
                     if pol and isinstance(a, dict) and ((a.get('k') == 'call' and lastname(a.get('name') or '').startswith('operator==')) or
                                                         (a.get('k') == 'bin' and a.get('op') == '==')) and \
                             mentions_var(a, v) and any(mentions_var(a, d) for d in done_before):
